@@ -49,6 +49,26 @@ func Like(p1 value.Primary, p2 value.Primary) ternary.Value {
 }
 
 func matchText(text []rune, pattern []rune) ternary.Value {
+	return matchTextTail(text, pattern, make(map[[2]int]bool))
+}
+
+// matchTextTail is called with tails of the text and of the pattern only, so that the lengths of the two identify
+// its arguments. The pairs that have not matched are kept in failed: a text that does not match a pattern with n
+// words between wildcards would otherwise be examined in a number of steps that grows exponentially with n.
+func matchTextTail(text []rune, pattern []rune, failed map[[2]int]bool) ternary.Value {
+	key := [2]int{len(text), len(pattern)}
+	if failed[key] {
+		return ternary.FALSE
+	}
+
+	t := matchTextTailOnce(text, pattern, failed)
+	if t != ternary.TRUE {
+		failed[key] = true
+	}
+	return t
+}
+
+func matchTextTailOnce(text []rune, pattern []rune, failed map[[2]int]bool) ternary.Value {
 	anyRunesMinLen, anyRunesMaxLen, searchWord, restPattern := matchCondition(pattern)
 
 	anyRunes := text
@@ -60,7 +80,7 @@ func matchText(text []rune, pattern []rune) ternary.Value {
 		}
 
 		idx := utf8.RuneCountInString(textStr[:bidx])
-		if anyRunesMaxLen < 0 && matchText(text[idx+1:], pattern) == ternary.TRUE {
+		if anyRunesMaxLen < 0 && matchTextTail(text[idx+1:], pattern, failed) == ternary.TRUE {
 			return ternary.TRUE
 		}
 		anyRunes = text[:idx]
@@ -77,7 +97,7 @@ func matchText(text []rune, pattern []rune) ternary.Value {
 		return ternary.ConvertFromBool(len(anyRunes)+len(searchWord) == len(text))
 	}
 
-	return matchText(text[len(anyRunes)+len(searchWord):], restPattern)
+	return matchTextTail(text[len(anyRunes)+len(searchWord):], restPattern, failed)
 }
 
 func matchCondition(pattern []rune) (anyRunesMinLen int, anyRunesMaxLen int, searchWord []rune, restPattern []rune) {
